@@ -22,7 +22,8 @@ func (p *prop) Rule() string {
 		"2100-02-28 (non-leap century), aligned to the quantum's finest unit, lengths 0..400 days (day-aligned), 0..72 h " +
 		"(hour-aligned), 0..40 months, 0..6 years, biased to month/year ends, plus long and unaligned ranges (model = code only); " +
 		"rt: every unit x all 24 hours x first/last days of every month of leap and non-leap years; tov on malformed names; " +
-		"mm/next/addmonth on random inputs incl. days 29-31; efield: set-only histories through PQL then Row/Rows with aligned from/to. " +
+		"mm/next/addmonth on random inputs incl. days 29-31; efield: set-only histories through PQL (Set and API.Import) then Row/Rows with aligned from/to, " +
+		"and for 2 of 3 datasets a sequence of wide and narrow ranges starting in the same first view (wide-narrow-wide-narrow, narrow first, shrinking), repeated. " +
 		"A case is non-trivial when it holds a vbtr line with start < end, an rt line, or a row/rows query after at least one timestamped set"
 }
 
@@ -263,7 +264,11 @@ func e2eCase(r *vh.Rng) vh.Case {
 		if r.Chance(1, 12) {
 			ts = "-"
 		}
-		lines = append(lines, fmt.Sprintf("set %d %d %s", r.Range(1, 3), r.Range(1, 4), ts))
+		if r.Chance(1, 5) {
+			lines = append(lines, fmt.Sprintf("import 0 %d:%d:%s", r.Range(1, 3), r.Range(1, 4), ts))
+		} else {
+			lines = append(lines, fmt.Sprintf("set %d %d %s", r.Range(1, 3), r.Range(1, 4), ts))
+		}
 	}
 	nq := r.Range(2, 6)
 	for i := 0; i < nq; i++ {
@@ -297,6 +302,56 @@ func e2eCase(r *vh.Rng) vh.Case {
 	}
 	if r.Chance(1, 3) {
 		lines = append(lines, fmt.Sprintf("scan %d %d", r.Range(1, 3), r.Range(1, 4)))
+	}
+	// Several ranges over the same dataset, each compared with the model: one row with columns in
+	// different periods, then wide / narrow ranges that start in the same first view, in both
+	// orders and repeated (a query must not leave anything behind for the next one).
+	if r.Chance(2, 3) {
+		row := r.Range(1, 3)
+		n := r.Range(2, 4)
+		var ts []time.Time
+		t := tf.Floor(base, fin)
+		for i := 0; i < n; i++ {
+			ts = append(ts, t)
+			ts2 := t
+			if r.Chance(1, 4) {
+				ts2 = t.Add(time.Duration(r.Intn(24)) * time.Hour) // anywhere inside a coarser period
+				if tf.Floor(ts2, fin) != t {
+					ts2 = t
+				}
+			}
+			if r.Chance(1, 4) {
+				lines = append(lines, fmt.Sprintf("import 0 %d:%d:%s", row, 1+2*i+r.Intn(2), tf.Show(ts2)))
+			} else {
+				lines = append(lines, fmt.Sprintf("set %d %d %s", row, 1+2*i+r.Intn(2), tf.Show(ts2)))
+			}
+			t = tf.AddUnits(t, fin, r.Pick(1, 1, 2, 3, 30))
+		}
+		wide := func() string {
+			return fmt.Sprintf("row %d %s %s", row, tf.Show(ts[0]), tf.Show(tf.AddUnits(ts[n-1], fin, 1)))
+		}
+		narrow := func(i int) string {
+			return fmt.Sprintf("row %d %s %s", row, tf.Show(ts[i]), tf.Show(tf.AddUnits(ts[i], fin, 1)))
+		}
+		upto := func(i int) string {
+			return fmt.Sprintf("row %d %s %s", row, tf.Show(ts[0]), tf.Show(tf.AddUnits(ts[i], fin, 1)))
+		}
+		switch r.Intn(3) {
+		case 0:
+			lines = append(lines, wide(), narrow(0), wide(), narrow(0))
+		case 1:
+			lines = append(lines, narrow(0), wide(), narrow(0), narrow(n-1), wide())
+		default:
+			for i := n - 1; i >= 0; i-- {
+				lines = append(lines, upto(i))
+			}
+			lines = append(lines, wide())
+		}
+		for k := r.Range(0, 2); k > 0; k-- {
+			i := r.Intn(n)
+			lines = append(lines, narrow(i), upto(i))
+		}
+		lines = append(lines, fmt.Sprintf("row %d - -", row))
 	}
 	return vh.Case{Lines: lines, Nontrivial: true}
 }
